@@ -118,10 +118,11 @@ Proof.
 Qed.
 Print Assumptions C07_default_trusted_nonvacuous.
 
-(* finding D12: "sparse matrices are default-trusted" is false of the names scipy's matrices carry:
-   SparseMatrixNode's default list has the single name scipy.sparse._matrix.spmatrix *)
-Theorem C07_sparse_default_refuted :
-  defaults ex_env (s "_scipy.SparseMatrixNode") = [s "scipy.sparse._matrix.spmatrix"]
-  /\ get_untrusted_types ex_env (ex_estimator attr_csr) = Ok [s "scipy.sparse._csr.csr_matrix"].
-Proof. split; vm_compute; reflexivity. Qed.
-Print Assumptions C07_sparse_default_refuted.
+(* D12 repaired in /repo (SparseMatrixNode default-trusts the concrete scipy.sparse matrix classes, not only their base
+   class): an estimator holding a csr_matrix attribute audits clean without a trusted list -- re-checked against the
+   regenerated default tables on every run *)
+Theorem C07_sparse_default_trusted :
+  In (s "scipy.sparse._csr.csr_matrix") (defaults ex_env (s "_scipy.SparseMatrixNode"))
+  /\ get_untrusted_types ex_env (ex_estimator attr_csr) = Ok [].
+Proof. split; vm_compute; [tauto | reflexivity]. Qed.
+Print Assumptions C07_sparse_default_trusted.
